@@ -23,3 +23,33 @@ A_RQ = "theorems are about the R instance of the polymorphic model; the executed
 
 for _p in ["C%02d" % i for i in range(1, 21)]:
     meta(_p, "see coq/Props/%s.v" % _p, assumptions=[A_FLOAT, A_CY, A_RQ])
+
+# ---------------------------------------------------------------------------
+meta("C01",
+     proved="for ALL valid train pairs and every MRTS: the merge scan of the Python fall-back (model isi_profile_py) returns exactly the declarative ISI profile isi_spec (breakpoints, edge rules, empty trains, trailing trim); the .pyx text computes the same (isi_profile_cy = isi_profile_py); interval lengths > 0 (all divisors non-zero); result well-formed",
+     tested_only="that the model is what /repo computes (correspondence: kernels 1/50, both backends, exhaustive <=3 spikes on the 9-point grid x MRTS grid + random), implementation vs extracted isi_spec; float rounding",
+     assumptions=[A_FLOAT, A_CY, A_RQ])
+meta("C16",
+     proved="the window routine (Python and Cython text) never exceeds max_tau for any two cursor contexts when max_tau > 0; pairwise definition: coincident => |difference| < max_tau; enlarging max_tau (or removing the bound) never removes a coincidence; code window = specification window",
+     tested_only="None == 0 == omitted through the public API (glue `if max_tau is None: max_tau = 0.0`), the bound observed on sync/order/directionality/filter outputs of the implementation; the link scan = pairwise definition is property C03",
+     assumptions=[A_FLOAT, A_CY, A_RQ])
+meta("C13",
+     proved="np.unique model sorted + same elements; reconcile = declarative spec; common interval [min starts, max ends]; strictly increasing; exactly the input times inside the interval (slack eps); idempotent; identity on valid input; independent of order/repeats of the input times; every multivariate entry point of the model reconciles exactly once (definitional)",
+     tested_only="that no function mutates its arguments (numpy aliasing is outside the value model: snapshot monitor over 17 public calls per input); bivariate entry points on messy input vs clean input (oracle on the implementation, both backends)",
+     rule="random lists of 1-4 trains with unsorted/repeated/out-of-range times and different edges (k/8 grid) for reconcile itself; random lists of 2-5 valid trains made messy (shuffled, repeats) for 23 entry points x keyword settings; distinct by canonical encoding",
+     assumptions=[A_FLOAT, A_CY, A_RQ, "eps = 1e-6 is the rational 1/10^6 in the model and the nearest double in the code"])
+meta("C14",
+     proved="pairs generated from an index list = pairs over positions looked up through the list; for every admissible index list (any subset/order/repeats) each generic multivariate driver (distance, profile with divide-and-conquer, matrix, SPIKE-Sync, order, directionality values) on (list, indices) equals the driver on the selected sub-list; list of two = bivariate value",
+     tested_only="argument-count dispatch of the Python entry points (two trains / list / varargs), forwarding of interval/max_tau/MRTS/RI through every form: oracle on the implementation (13 functions, random subsets, both backends); MRTS='auto' with a proper subset is known finding F10",
+     rule="random lists of 2-5 trains (k/16 grid, shared/edge spikes, repeated trains), random index subsets of size >= 2 in random order, random MRTS/max_tau/RI/interval; distinct by canonical encoding",
+     assumptions=[A_FLOAT, A_CY, A_RQ])
+meta("C20",
+     proved="merge: permutation of the concatenated spikes, sorted, first train's interval; histogram over given edges: each bin = number of pooled spikes in [e_k,e_k+1) (last bin closed), counts sum to the number of spikes inside [first edge,last edge]",
+     tested_only="np.linspace bin edges / int(T/bin) bin count and the Poisson generator (sorted, inside, edges) on the implementation; see Props/C20.v for the psth-edge and Poisson-prefix theorems once ModelIO is in",
+     rule="random lists of 2-5 trains (k/16 grid) with duplicates across trains and empty trains, bin sizes 1/n and non-dividing sizes; 300+ seeded Poisson trains; distinct by canonical encoding",
+     assumptions=[A_FLOAT, A_RQ, "np.histogram/np.linspace/np.random are numpy primitives: modelled (hist_counts) or taken as inputs (draws)"])
+meta("C11",
+     proved="df_add: interior of the result = one entry per distinct event time, sums where shared (df_add_spec), edges kept, result well-formed, commutative on events; integral = sums over events strictly inside (a,b) / all events / several intervals; average = ratio or 1; integral additive under add on every open interval; plottable k=0 = y/mp",
+     tested_only="smoothing window k > 0 of get_plottable_data (model df_plottable vs implementation for k = 1,2,3); histories of adds through the multivariate profiles",
+     rule="random discrete profiles with <= 4 events on the k/8 grid, events on the edge times, operands without events, multiplicities 1-3; all intervals on the k/16 grid sampled; distinct by canonical encoding",
+     assumptions=[A_FLOAT, A_CY, A_RQ])
